@@ -21,15 +21,31 @@ type c11Sys struct {
 	K     int          `json:"k"` // -1 = fault-free reference run
 	Errno int          `json:"errno"`
 	Short bool         `json:"short,omitempty"`
+	// Classes / After: which calls are counted for the fault (default: flusher and compactor threads, from the start)
+	Classes []string `json:"classes,omitempty"`
+	After   string   `json:"after,omitempty"`
+	MaxK    int      `json:"-"`
 }
 
 func c11SysSessions() []c11Sys {
 	small := sess.Cfg{Mem: 90, Thresh: 0, Ratio: 1.0, RBuf: 4096, WBuf: 16}
 	a := c02Alphabet()
+	reopen := small
 	return []c11Sys{
+		// the flush that recovery performs for a WAL left behind: the first handle is abandoned without Close (the
+		// directory is what a stopped process leaves), the fault hits the calls of the second Open
+		{Name: "recovery-flush", Classes: []string{"client"}, After: "STOPPED", MaxK: 40,
+			Sess: mkDBSession(small, a[1], a[3], sess.Op{Op: "mark", Text: "STOPPED"}, sess.Op{Op: "abandon"}, sess.Op{Op: "open", Cfg: &reopen}, sess.Op{Op: "close"})},
 		{Name: "flush", Sess: mkDBSession(small, a[0], sess.Op{Op: "barrier"}, a[1], a[2], sess.Op{Op: "close"})},
 		{Name: "flush+compaction", Sess: mkDBSession(small, a[0], sess.Op{Op: "barrier"}, a[2], sess.Op{Op: "rotwait"}, a[1], sess.Op{Op: "compact"}, a[3], sess.Op{Op: "close"})},
 	}
+}
+
+func classesOr(c, def []string) []string {
+	if len(c) > 0 {
+		return c
+	}
+	return def
 }
 
 func c11SystemHalf(ctx *core.Ctx) error {
@@ -40,6 +56,9 @@ func c11SystemHalf(ctx *core.Ctx) error {
 		maxK := 70
 		if s.Name == "flush+compaction" {
 			maxK = 130
+		}
+		if s.MaxK > 0 {
+			maxK = s.MaxK
 		}
 		for k := 0; k < maxK; k++ {
 			for _, errno := range []int{5, 28} { // EIO, ENOSPC
@@ -59,7 +78,7 @@ func c11SystemHalf(ctx *core.Ctx) error {
 		}
 	}
 	ctx.Ev.Bounds["system_half_runs"] = len(cases)
-	ctx.Ev.Notes = append(ctx.Ev.Notes, "system half: a session with flushes and one with flushes + a compaction run in a traced child; the k-th mutating system call of the flusher/compactor classes (write, open-with-create, mkdir, unlink, rename) is replaced by -EIO / -ENOSPC (thorough: also short writes), for every k; the process must stop, or the failing API call must return an error; afterwards a fresh process must recover the directory to the reference of acknowledged operations (an incomplete table or compaction is never installed over good data); a process that neither stops nor reports (all threads parked) is classified as absorbed")
+	ctx.Ev.Notes = append(ctx.Ev.Notes, "system half: a session with flushes, one with flushes + a compaction, and one whose second Open flushes a WAL left behind by an abandoned handle (fault on the calls of that Open) run in a traced child; the k-th mutating system call of the flusher/compactor classes (write, open-with-create, mkdir, unlink, rename) is replaced by -EIO / -ENOSPC (thorough: also short writes), for every k; the process must stop, or the failing API call must return an error; afterwards a fresh process must recover the directory to the reference of acknowledged operations (an incomplete table or compaction is never installed over good data); a process that neither stops nor reports (all threads parked) is classified as absorbed")
 	rs := ctx.Pmap(cases)
 	ctx.Fold(rs, cases)
 	for i, r := range rs {
@@ -78,7 +97,7 @@ func (c c11) sysCase(w *core.WCtx, cs *c11Sys) core.Result {
 	mustMkdir(dbdir)
 	sp := writeSession(dir, cs.Sess)
 	tr := ktrace.Run(ktrace.Options{Dir: dbdir, Argv: []string{binPath("vchild"), "run", dbdir, sp},
-		Fault: &ktrace.Fault{Classes: []string{"flusher", "compactor"}, K: cs.K, Errno: cs.Errno, Short: cs.Short}, HangAfter: 10 * time.Second})
+		Fault: &ktrace.Fault{Classes: classesOr(cs.Classes, []string{"flusher", "compactor"}), AfterMarker: cs.After, K: cs.K, Errno: cs.Errno, Short: cs.Short}, HangAfter: 10 * time.Second})
 	name := fmt.Sprintf("session %s [%s] fault k=%d errno=%d short=%v", cs.Name, sessStr(cs.Sess), cs.K, cs.Errno, cs.Short)
 	viol := func(sig, f string, a ...any) {
 		if len(r.Viol) < 4 {
